@@ -1,6 +1,6 @@
 """C19 cases: num_traits FromPrimitive / ToPrimitive / AsPrimitive."""
 from .common import *
-from .c14 import float_case, int_case, FMT
+from .c14 import float_case, int_case, FMT, exponent_sweep
 
 PRIMS = {"u8": 8, "u16": 16, "u32": 32, "u64": 64, "u128": 128, "usize": 64,
          "i8": 8, "i16": 16, "i32": 32, "i64": 64, "i128": 128, "isize": 64}
@@ -43,6 +43,12 @@ def big_value(rng, w, n, p):
 
 
 def gen(rng, tier):
+    for cfg in ["8x1", "16x1", "64x2", "8x17"] + (["32x3", "64x16"] if tier == "thorough" else []):
+        w, n = wn(cfg)
+        for s in "ui":
+            for fmt in ("f32", "f64"):
+                for f in exponent_sweep(rng, fmt, w * n):
+                    yield f"nt_from_{fmt} {s}{cfg} {hx(f)}", "exponent-sweep"
     reps = 30 if tier == "thorough" else 5
     for cfg in cfgs(tier):
         w, n = wn(cfg)
